@@ -1,11 +1,12 @@
 (* correspondence glue for C04 *)
 From Coq Require Import String.
-From Verif Require Import Base.Prelude Base.Decimal Misc.Level Lts.Sampler Misc.Gate Misc.GenTypes Gen.EventMethods.
+From Verif Require Import Base.Prelude Base.Decimal Misc.Level Misc.LevelNames Lts.Sampler Misc.Gate Misc.GenTypes Gen.EventMethods.
 
 (* a case is a sum: gate rows, level-text queries, the reflected method set *)
 Inductive c04_case :=
 | CGate (g : gate) (calls : list (Z * entry * bool))
 | CParse (s : list N)
+| CParseNamed (n : naming) (s : list N)   (* ParseLevel under customised level names *)
 | CString (l : Z)
 | CMethods.
 
@@ -21,6 +22,7 @@ Definition c04_run (c : c04_case) : c04_obs :=
   match c with
   | CGate g calls => OGate (map (fun effs => (writes effs, map dk_code (dones effs))) (fst (run_calls g calls)))
   | CParse s => match parse_level s with POk l => OParse (Some l) 0 | PErrUnknown => OParse None 1 | PErrRange => OParse None 2 end
+  | CParseNamed n s => match parse_level_with (naming_mf n) s with POk l => OParse (Some l) 0 | PErrUnknown => OParse None 1 | PErrRange => OParse None 2 end
   | CString l => OString (level_string l)
   | CMethods => OMethods (map m_name (filter exported event_methods))
   end.
